@@ -2,6 +2,7 @@
    Only final statements; proofs in Front/AttrProofs.v. *)
 From Coq Require Import List NArith Permutation.
 From LogosV Require Import Front.AttrParser Front.AttrProofs Front.TypeParams.
+From LogosV Require Import Engine.Model Engine.GraphBuild Engine.CertProofs Engine.Rename.
 Import ListNotations.
 Local Open Scope N_scope.
 
@@ -39,3 +40,13 @@ Proof. exact type_lifetime_swap. Qed.
 Theorem C18_old_generic_items_refuted : exists n t a,
   generics_old (run_old [ISetType n t; ISetLifetime a]) <> generics_old (run_old [ISetLifetime a; ISetType n t]).
 Proof. exact old_order_matters. Qed.
+
+(* items that number the leaves (skips) listed in another order: when the graph of one definition, its leaf
+   numbers translated by [m], is accepted by the bisimulation checker against the graph of the other, every
+   walk of the generated code ends in the same place with the same (translated) leaf, in both modes *)
+Theorem C18_reordered_leaves_agree : forall g1 g2 m R,
+  gsim_ok g1 (rename_graph (leaf_map m) g2) R = true ->
+  forall isprefix start hops rest, bytes_ok rest ->
+  walk g1 isprefix start hops rest (g_root g1) start None
+  = rename_stop (leaf_map m) (walk g2 isprefix start hops rest (g_root g2) start None).
+Proof. exact reordered_leaves_agree. Qed.
